@@ -4,14 +4,14 @@ import sweeps
 from sweeps import ALL, WS, program_units, diff_sweep, halts_extra
 import C02
 
-PROPS_VO = ['Props/C03.vo', 'Props/Patterns_props.vo']
+PROPS_VO = ['Props/C03.vo', 'Props/Patterns_props.vo', 'Props/C01_program.vo']
 GEN_ITEMS = ['coq/Gen/GenTables.v', 'coq/Gen/GenStdlib.v', 'coq/Gen/GenContext.v']
 GEN_FROM = {'regen_context': ['coq/Gen/GenContext.v']}
 LEVEL = 'proof'
 TRUSTED = ['PARTIAL: proved = "halts on the committed timeline iff Halts(initial state)" (halts_cstep), absorbing win/error stubs on the regenerated stdlib, '
            'goto/branch/guard idioms preserve Halts both ways, defeat calls and preempts lie lexically in try bodies or defeat functions for every accepted program '
            '(C06 corollary), and vm_sound: every VM verdict of the sweep is a proof instance (OAbsorbed/OFault: never halts; OHalt: halts). '
-           'Not proved: that every accepted program\'s code is composed of those idioms only (whole-generator simulation)']
+           'program_never_halts: proved outright for the modelled fragment (multi-function programs over int/bool locals, loops, calls, recursion, write, checked division) from the initial image; not proved for arbitrary programs (arrays, strings, time travel): there the jump classifier and the sweep apply']
 ASSUMPTIONS = ['defined behaviour only: checked builds, or unchecked builds on runs the reference semantics finds fault-free; no reads of uninitialised elements']
 
 
